@@ -222,6 +222,16 @@ def rules_c05(ctx, tab, tag=""):
     for r in rows:
         if r.outcome != "return" or r.same == 1 or r.resume:
             continue
+        # fail closed: a row that is neither the same-state return nor a resume must know whether the requested state has
+        # a timeline, and - when it has none - whether an animation is being interrupted (otherwise nothing below applies)
+        ctx.ob("R1" + tag, "row[%s]/target-decided" % r.label, r.tgt_animated in (0, 1),
+               "the transition must find out whether the requested state has a timeline", site, trace_of(r.path),
+               what="target-timeline-not-decided")
+        if r.tgt_animated == 0:
+            ctx.ob("R1" + tag, "row[%s]/interruption-decided" % r.label, r.cur_animated in (0, 1),
+                   "entering a state without timeline must find out whether the state being left was animated (to "
+                   "remember the interrupted animation); this row never looks", site, trace_of(r.path),
+                   what="interruption-not-decided")
         if r.cur_animated == 1 and r.tgt_animated == 0:
             fin = r.final["pause"]
             ok = is_some(fin) and fin[4][0][1][0] == "agg" and \
